@@ -122,6 +122,8 @@ def extract(spec, repo, outdir):
         body, k = re.subn(rx, repl, body, flags=re.S)
         if isinstance(cnt, int):
             ok = (k == cnt)
+        elif cnt == ">=0":
+            ok = True
         elif cnt == "=0or1":
             ok = k in (0, 1)
         else:
